@@ -367,6 +367,17 @@ def _coll_oracle(interp, env, f, args, t, bb, path):
     sty = f.get("self_ty") or ""
     unit = Agg("tuple", None, None, [])
 
+    # ---- the free functions core::cmp::{min, max}_by_key(a, b, key): the first argument wins a tie for min, the second for max
+    if dk in ("core::cmp::min_by_key", "core::cmp::max_by_key") and len(args) == 3:
+        tmp_ = new_vec(interp, [args[0], args[1]])
+        ka = _call1(interp, args[2], [HRef(tmp_.vid, 0)])
+        kb = _call1(interp, args[2], [HRef(tmp_.vid, 1)])
+        ra, rb = (rank(interp, env, ka) if ka is not None else None), (rank(interp, env, kb) if kb is not None else None)
+        if ra is None or rb is None or ra != ra or rb != rb:
+            return TOP
+        if dk.endswith("min_by_key"):
+            return args[0] if ra <= rb else args[1]
+        return args[1] if rb >= ra else args[0]
     # ---- comparisons decided by the scenario's ordering
     if dk in ("core::cmp::PartialOrd::lt", "core::cmp::PartialOrd::le", "core::cmp::PartialOrd::gt", "core::cmp::PartialOrd::ge") and len(args) == 2:
         ra, rb = rank(interp, env, args[0]), rank(interp, env, args[1])
